@@ -1,30 +1,49 @@
 #!/usr/bin/env python3
-"""Run every confirmed seeded change (seeded/<id>/patch.diff) against the checks expected to catch it (tools/trial.sh, scratch copies)
-and record the outcome in seeded/<id>/meta.json under `ran` (what was run, which checks reported a VIOLATION)."""
+"""Run every confirmed seeded change (seeded/<id>/patch.diff) against the checks recorded as catching it (tools/trial.sh, scratch
+copies; /repo untouched), several at a time, and write seeded/SUMMARY.json: for each seed which checks reported a VIOLATION (with a
+replay / no-failing-input-found).  usage: tools/trial_all.py [-j N] [ids...]   (VERIF_SEED is passed through)"""
+import concurrent.futures as cf
 import json, os, re, subprocess, sys
 V = os.path.dirname(os.path.dirname(os.path.abspath(__file__)))
-PLAN = {"C01": ["C01", "C12"], "C03": ["C03", "C18"], "C04": ["C04", "C14"], "C05": ["C05"], "C06": ["C06"], "C09": ["C09", "C01"], "C10": ["C10", "C02"],
-        "C11": ["C11", "C01"], "C13": ["C13"], "C14": ["C14", "C04"], "C15": ["C15"], "C17": ["C17"], "C19": ["C19"], "C20": ["C20"],
-        "C02": ["C02", "C01"], "C07": ["C07"], "C08": ["C08"], "C12": ["C12"], "C16": ["C16"], "C18": ["C18", "C03"]}
-only = sys.argv[1:]
-for sid in sorted(os.listdir(os.path.join(V, "seeded"))):
-    if only and sid not in only:
-        continue
+
+
+def checks_for(sid, meta):
+    ran = meta.get("ran", {})
+    txt = " ".join(str(ran.get(k, "")) for k in ("outcome_after", "outcome", "checks_run"))
+    cs = re.findall(r"\bC\d\d\b", txt)
+    prop = sid.split("-")[0]
+    out = [prop] + [c for c in dict.fromkeys(cs) if c != prop]
+    return out[:3]
+
+
+def run(sid):
     d = os.path.join(V, "seeded", sid)
-    checks = PLAN.get(sid.split("-")[0], [sid.split("-")[0]])
+    meta = json.load(open(os.path.join(d, "meta.json")))
+    checks = checks_for(sid, meta)
     p = subprocess.run([os.path.join(V, "tools", "trial.sh"), os.path.join(d, "patch.diff")] + checks, capture_output=True, text=True, timeout=7200)
-    res = {}
-    cur = None
+    res, cur = {}, None
     for line in p.stdout.splitlines():
         m = re.match(r"=== (C\d+) against", line)
         if m:
             cur = m.group(1)
             res[cur] = "no violation reported"
         if cur and line.startswith("VIOLATION"):
-            res[cur] = "VIOLATION" + (" (no-failing-input-found)" if "no-failing-input-found" in line else " with replay") if res[cur] != "VIOLATION with replay" else res[cur]
-    meta = json.load(open(os.path.join(d, "meta.json")))
-    meta["ran"] = {"confirmed_by": "tools/confirm_seed.sh (demo exits non-zero with the change and 0 without; 795 stable tests still pass with it)",
-                   "checks_run": "tools/trial.sh seeded/%s/patch.diff %s (quick tier, scratch copy of /verif + scratch worktree of /repo)" % (sid, " ".join(checks)),
-                   "outcome": res}
-    json.dump(meta, open(os.path.join(d, "meta.json"), "w"), indent=1)
-    print(sid, res, flush=True)
+            kind = "VIOLATION (no-failing-input-found)" if "no-failing-input-found" in line else "VIOLATION with replay"
+            if res[cur] != "VIOLATION with replay":
+                res[cur] = kind
+    return sid, checks, res
+
+
+if __name__ == "__main__":
+    args = sys.argv[1:]
+    j = 4
+    if args[:1] == ["-j"]:
+        j = int(args[1]); args = args[2:]
+    ids = sorted(x for x in os.listdir(os.path.join(V, "seeded")) if os.path.isdir(os.path.join(V, "seeded", x)) and (not args or x in args))
+    summary = {}
+    with cf.ThreadPoolExecutor(j) as ex:
+        for sid, checks, res in ex.map(run, ids):
+            summary[sid] = {"checks": checks, "result": res, "seed": os.environ.get("VERIF_SEED", "0")}
+            print(sid, res, flush=True)
+    if not args:
+        json.dump(summary, open(os.path.join(V, "seeded", "SUMMARY.json"), "w"), indent=1, sort_keys=True)
